@@ -15,11 +15,12 @@ func init() {
 		Assumptions: []string{
 			"layout dimensions (CSRC count {0,1,2,15}, extension configuration, payload length {0..5,100,1200}, padding {none,1,2,4,255}) are taken in full product; fixed header fields are taken from 4 presets in the layout product and in full product of their own alphabets over 8 representative layouts",
 			"one-byte blocks: 0-3 elements with ids from {1,2,7,14} and lengths {1,2,3,4,15,16}, plus the full 14-element block; two-byte blocks: 0-3 elements, ids {1,14,15,16,255}, lengths {0,1,2,3,16,17,254,255}; legacy: 5 profiles x {0,1,2,64} words (quick tier: 3-element blocks use 3-value alphabets)",
-			"payloads longer than 1200 bytes and more than 3 elements (other than the 14-element block) are outside the bound",
+			"a further scenario covers 4-14 one-byte elements and 4-12 two-byte elements (ids 1..n resp. spread over 1..255, three length patterns each, incl. blocks longer than 255 and 1020 bytes) x CSRC {0,15} x payload lengths {0,1,1201,4097,65000} x padding {none,255}; anything beyond (payloads above 65000 bytes, other id sets) is outside the bound",
 		},
 		Scenarios: []mc.Scenario{
 			{Name: "layout-product", Tiers: "qt", ShardDepth: 4, Run: c01Layout},
 			{Name: "fixed-fields-product", Tiers: "qt", ShardDepth: 3, Run: c01Fixed},
+			{Name: "many-elements-large-payloads", Tiers: "qt", ShardDepth: 3, Run: c01Large},
 		},
 	})
 }
@@ -152,4 +153,58 @@ func c01Oracle(c *mc.Ctx, p *rtp.Packet, ww *wireBox) {
 		kind = fmt.Sprintf("%#04x/%d", w.Profile, len(w.Elements()))
 	}
 	c.Outcome(fmt.Sprintf("ext=%s pad=%v cc=%d", kind, w.PadSize > 0, len(w.CSRC)))
+}
+
+// c01Large: many extension elements and large payloads (pattern-based, not a full product).
+func c01Large(c *mc.Ctx) {
+	p := &rtp.Packet{}
+	f := fixedPresets[c.Pick(2)]
+	p.Version, p.Marker, p.PayloadType, p.SequenceNumber, p.Timestamp, p.SSRC = f.version, f.marker, f.pt, f.seq, f.ts, f.ssrc
+	w := newWire(f)
+	if c.Bool() {
+		for i := 0; i < 15; i++ {
+			p.CSRC = append(p.CSRC, 0x01010101*uint32(i+1))
+		}
+	}
+	twoByte := c.Bool()
+	pat := c.Pick(3)
+	if !twoByte {
+		n := 4 + c.Pick(11)
+		w.setProfile(0xBEDE)
+		if c.Bool() {
+			p.Extension, p.ExtensionProfile = true, 0xBEDE
+		}
+		for i := 0; i < n; i++ {
+			l := []int{1 + i%16, 16, 1 + (i*7)%16}[pat]
+			v := fill(l, byte(i*17))
+			if err := p.SetExtension(uint8(i+1), v); err != nil {
+				c.Failf("setextension-refused", "SetExtension(%d,%dB): %v", i+1, l, err)
+			}
+			w.addElem(uint8(i+1), clone(v))
+		}
+	} else {
+		n := 4 + c.Pick(9)
+		w.setProfile(0x1000)
+		p.Extension, p.ExtensionProfile = true, 0x1000
+		for i := 0; i < n; i++ {
+			l := []int{(i * 37) % 256, 255, []int{0, 1, 254, 255, 17}[i%5]}[pat]
+			id := uint8(1 + (i*23)%255)
+			v := fill(l, byte(i*13))
+			if err := p.SetExtension(id, v); err != nil {
+				c.Failf("setextension-refused", "SetExtension(%d,%dB): %v", id, l, err)
+			}
+			w.addElem(id, clone(v))
+		}
+	}
+	pl := mc.From(c, []int{0, 1, 1201, 4097, 65000})
+	if pl > 0 {
+		p.Payload = fill(pl, 0x23)
+	}
+	if c.Bool() {
+		p.Padding, p.PaddingSize = true, 255
+		w.w.PadSize = 255
+	}
+	w.w.CSRC = p.CSRC
+	w.w.Payload = clone(p.Payload)
+	c01Oracle(c, p, w)
 }
